@@ -538,6 +538,11 @@ def stream_hexdigest_post(prop):
     return post
 
 
+def _with_native(u, native):
+    u.native = native
+    return u
+
+
 def method_units(prop):
     hex_inv = lambda ctx: z3.And(ctx.k <= ctx.n, ctx.g('fed') == UF('spref', INT, BYTES)(ctx.k))
     t = lambda ctx: z3.BoolVal(True)
@@ -551,8 +556,8 @@ def method_units(prop):
         Unit(f'{prop}.s3.upload', S3C_PY, 'S3Compatible.upload', upload_setup, upload_post(prop), prop=prop),
         Unit(f'{prop}.s3.upload_stream', S3C_PY, 'S3Compatible.upload_stream', upload_setup, upload_stream_post(prop), prop=prop),
         Unit(f'{prop}.s3.put_object_stream', S3C_PY, 'S3Compatible._put_object_stream', method_env, put_stream_post(prop), prop=prop),
-        Unit(f'{prop}.s3.stream_hexdigest', S3C_PY, '_get_stream_hexdigest', stream_hexdigest_setup, stream_hexdigest_post(prop),
-             loops={'For#1': LoopSpec(hex_inv, modifies=[('ghost', 'fed')], name='For#1')}, prop=prop),
+        _with_native(Unit(f'{prop}.s3.stream_hexdigest', S3C_PY, '_get_stream_hexdigest', stream_hexdigest_setup, stream_hexdigest_post(prop),
+                          loops={'For#1': LoopSpec(hex_inv, modifies=[('ghost', 'fed')], name='For#1')}, prop=prop), ('stream_hexdigest',)),
         Unit(f'{prop}.s3.download_stream', S3C_PY, 'S3Compatible.download_stream', download_stream_setup, download_stream_post(prop),
              loops={'AsyncFor#1': LoopSpec(t, modifies=[], name='AsyncFor#1')}, prop=prop),
     ]
